@@ -20,7 +20,7 @@ const MY_MAC: [u8; 6] = [2, 0, 0, 0, 0, 1];
 const GW: [u8; 4] = [10, 0, 0, 254];
 
 fn mac_of(ip: [u8; 4]) -> [u8; 6] {
-    [2, 0, 0, 0, 1, ip[3]]
+    [2, 0, 0, 0, 1 + ip[2], ip[3]]
 }
 fn mac_s(m: &[u8]) -> String {
     m.iter().map(|b| format!("{:02x}", b)).collect::<Vec<_>>().join(":")
@@ -319,6 +319,9 @@ impl W {
 fn arp_reply(sha: [u8; 6], spa: [u8; 4], op: u16, dst_mac: [u8; 6]) -> Vec<u8> {
     eth_frame(dst_mac, sha, 0x0806, &arp_packet(op, sha, spa, MY_MAC, MY_IP))
 }
+/// our second IPv4 address in some runs: one end of a /31 point-to-point subnet (which has no broadcast address)
+const P2P_ME: [u8; 4] = [10, 0, 1, 2];
+const P2P_PEER: [u8; 4] = [10, 0, 1, 3];
 
 pub fn random(args: &Args) {
     let seed0 = args.u64("seed", 1);
@@ -338,6 +341,15 @@ pub fn random(args: &Args) {
             a.push(IpCidr::new(IpAddress::v4(10, 0, 0, 1), 24)).unwrap();
             a.push(IpCidr::new(ip_of(MY_IP, true), 64)).unwrap();
         });
+        let p2p = !v6 && rng.chance(40);
+        if p2p {
+            // (the address table holds two entries: the point-to-point address takes the place of the IPv6 one, and
+            //  the raw socket of the other family stays silent in these runs)
+            iface.update_ip_addrs(|a| {
+                a.pop();
+                a.push(IpCidr::new(IpAddress::v4(P2P_ME[0], P2P_ME[1], P2P_ME[2], P2P_ME[3]), 31)).unwrap();
+            });
+        }
         if v6 {
             iface.routes_mut().add_default_ipv6_route(Ipv6Address::from_octets(a6(GW))).unwrap();
         } else {
@@ -353,9 +365,15 @@ pub fn random(args: &Args) {
                 udp::PacketBuffer::new(vec![udp::PacketMetadata::EMPTY; rxm], vec![0u8; rxp]),
                 udp::PacketBuffer::new(vec![udp::PacketMetadata::EMPTY; txm], vec![0u8; txp]),
             );
-            s.bind(6000 + k as u16).unwrap();
+            // the second UDP socket is sometimes bound to our address rather than to the port alone
+            let baddr = k == 1 && rng.chance(50);
+            if baddr {
+                s.bind((ip_of(MY_IP, v6), 6000 + k as u16)).unwrap();
+            } else {
+                s.bind(6000 + k as u16).unwrap();
+            }
             let h = sockets.add(s);
-            scfg.push(json!({"port": 6000 + k, "rxm": rxm, "rxp": rxp, "txm": txm, "txp": txp}));
+            scfg.push(json!({"port": 6000 + k, "rxm": rxm, "rxp": rxp, "txm": txm, "txp": txp, "baddr": baddr}));
             socks.push(SockCfg { h, kind: 0, port: 6000 + k as u16, rxm, rxp, txm, txp });
         }
         for k in 2..4usize {
@@ -423,7 +441,7 @@ pub fn random(args: &Args) {
         } else {
             json!([{"p":[0,0,0,0],"plen":0,"gw":[10,0,0,254],"exp":-1}])
         };
-        t.ev(json!({"ev":"reset","run":run,"world":"neigh","seed":seed0,"cfg":{"cache":cache,"v6":v6,"mtu":1500,"my_ip":[10,0,0,1],"my_mac":mac_s(&MY_MAC),"net":[10,0,0],"socks":scfg,
+        t.ev(json!({"ev":"reset","run":run,"world":"neigh","seed":seed0,"cfg":{"cache":cache,"v6":v6,"mtu":1500,"my_ip":[10,0,0,1],"p2p":if p2p { json!([P2P_ME, P2P_PEER]) } else { json!([]) },"my_mac":mac_s(&MY_MAC),"net":[10,0,0],"socks":scfg,
             "routes":routes,"arp_delay":arp_delay.iter().map(|(k,v)| json!([k,v])).collect::<Vec<_>>()}}));
         let mut pending: Vec<(i64, Vec<u8>)> = vec![]; // frames to deliver to the interface at a given time
         let mut next_did = 1u32;
@@ -470,6 +488,7 @@ pub fn random(args: &Args) {
                 let dst: [u8; 4] = match rng.below(10) {
                     0 | 1 => [192, 168, 7, rng.range(1, 200) as u8],
                     2 => [172, 16, 3, 9],
+                    3 | 4 if p2p => P2P_PEER,
                     _ => [10, 0, 0, last],
                 };
                 let did = next_did;
@@ -537,7 +556,8 @@ pub fn random(args: &Args) {
                         let did = 100_000 + steps as u32;
                         let size = rng.range(4, 300) as usize;
                         let port = *rng.pick(&[6000u16, 6001, 6001, 6009, 6002, 6003, 6012, 6004]);
-                        inbound(&mut w, v6, h, did, size, port, steps as u16)
+                        let port = if p2p && port == 6004 { 6003 } else { port };
+                        inbound_to(&mut w, v6, h, did, size, port, steps as u16, *rng.pick(&[0u8, 0, 0, 1, 2]))
                     }
                 };
                 due.push(f);
@@ -546,10 +566,11 @@ pub fn random(args: &Args) {
             if rng.chance(12) {
                 for b in 0..rng.range(1, 4) {
                     let h = rng.range(2, 12) as u8;
-                    let k = rng.below(5) as usize;
+                    let k = rng.below(if p2p { 4 } else { 5 }) as usize;
                     let did = 200_000 + steps as u32 * 8 + b as u32;
                     let size = rng.range(4, (w.socks[k].rxp as u64 * 2 / 3).max(5)) as usize;
-                    due.push(inbound(&mut w, v6, h, did, size, 6000 + k as u16, steps as u16));
+                    let dk = *rng.pick(&[0u8, 0, 0, 1, 2]);
+                    due.push(inbound_to(&mut w, v6, h, did, size, 6000 + k as u16, steps as u16, dk));
                 }
             }
             let budget = if rng.chance(25) { Some(rng.range(0, 2) as usize) } else { None };
@@ -573,6 +594,15 @@ pub fn random(args: &Args) {
                         if let Some(d) = arp_delay.get(&tpa[3]) {
                             if *d >= 0 {
                                 pending.push((w.now + *d, arp_reply(mac_of(tpa), tpa, 2, MY_MAC)));
+                            }
+                        }
+                    }
+                    if p2p && tpa == P2P_PEER {
+                        // the point-to-point peer behaves like station 3, and answers the address that asked
+                        if let Some(d) = arp_delay.get(&3) {
+                            if *d >= 0 {
+                                let spa = [f[28], f[29], f[30], f[31]];
+                                pending.push((w.now + *d, eth_frame(MY_MAC, mac_of(tpa), 0x0806, &arp_packet(2, mac_of(tpa), tpa, MY_MAC, spa))));
                             }
                         }
                     }
@@ -602,6 +632,13 @@ pub fn random(args: &Args) {
 /// a datagram from station `h` for the socket with (virtual) port `port`: 6000 / 6001 UDP, 6002 echo reply with our
 /// identifier, 6003 raw protocol; other ports: closed UDP port (6009) or an echo reply with a foreign identifier
 fn inbound(w: &mut W, v6: bool, h: u8, did: u32, size: usize, port: u16, ident: u16) -> Vec<u8> {
+    inbound_to(w, v6, h, did, size, port, ident, 0)
+}
+
+/// `dk` chooses the destination of a UDP datagram: 0 our address, 1 the subnet broadcast (IPv6: all-nodes multicast),
+/// 2 the limited broadcast (IPv6: all-nodes multicast); sockets bound to our address accept those too, and the
+/// metadata must still name the destination the datagram really had.
+fn inbound_to(w: &mut W, v6: bool, h: u8, did: u32, size: usize, port: u16, ident: u16, dk: u8) -> Vec<u8> {
     let src = [10, 0, 0, h];
     let hdr = if v6 { 40 } else { 20 };
     let (proto, body, socksize) = match port {
@@ -623,10 +660,21 @@ fn inbound(w: &mut W, v6: bool, h: u8, did: u32, size: usize, port: u16, ident: 
     };
     w.sizes.insert(did, socksize);
     let v6 = if port == 6004 { !v6 } else { v6 };
+    let dk = if proto == 17 { dk } else { 0 };
     if v6 {
-        eth_frame(MY_MAC, mac_of(src), 0x86dd, &ipv6_packet(a6(src), a6(MY_IP), proto, 64, &body, true))
+        let mut all_nodes = [0u8; 16];
+        all_nodes[0] = 0xff;
+        all_nodes[1] = 0x02;
+        all_nodes[15] = 1;
+        let (dm, da) = if dk == 0 { (MY_MAC, a6(MY_IP)) } else { ([0x33, 0x33, 0, 0, 0, 1], all_nodes) };
+        eth_frame(dm, mac_of(src), 0x86dd, &ipv6_packet(a6(src), da, proto, 64, &body, true))
     } else {
-        eth_frame(MY_MAC, mac_of(src), 0x0800, &ipv4_packet(src, MY_IP, proto, ident, 64, &body, true))
+        let (dm, da) = match dk {
+            0 => (MY_MAC, MY_IP),
+            1 => ([0xff; 6], [10, 0, 0, 255]),
+            _ => ([0xff; 6], [255, 255, 255, 255]),
+        };
+        eth_frame(dm, mac_of(src), 0x0800, &ipv4_packet(src, da, proto, ident, 64, &body, true))
     }
 }
 
@@ -698,7 +746,12 @@ fn app_recv(w: &mut W, k: usize, cap: usize, peek: bool, v6: bool, t: &mut Trace
                 }
             };
             t.ev(json!({"ev":"api","now":now,"call":"recv","sock":k,"cap":cap,"err":"none","did":did,"size":n,"diff":diff,"osize":w.sizes.get(&(did as u32)).cloned().map(|x| x as i64).unwrap_or(-1),
-                        "src":src,"srct":srct,"sport":sport,"local":local.unwrap_or_default()}));
+                        "src":src,"srct":srct,"sport":sport,"local":local.clone().unwrap_or_default(),
+                        "localt": match local.as_deref().map(|x| x.parse::<std::net::IpAddr>()) {
+                            Some(Ok(std::net::IpAddr::V4(a))) => ipj(&a.octets()),
+                            Some(Ok(std::net::IpAddr::V6(a))) => ipj(&a.octets()),
+                            _ => json!([]),
+                        }}));
             true
         }
         Err("truncated") => {
